@@ -153,6 +153,16 @@ def rand_value(rng, ct=None, unsigned=False, allow_null=True):
         h, mi, s = rng.randint(0, 23), rng.randint(0, 59), rng.randint(0, 59)
         if rng.random() < 0.1:
             days = h = mi = s = 0
+        # boundary shapes: individual fields zero (whole minutes / hours / days)
+        z = rng.random()
+        if z < 0.12:
+            s = 0
+        elif z < 0.2:
+            mi = s = 0
+        elif z < 0.26:
+            h = mi = s = 0
+        elif z < 0.3:
+            days = h = 0
         us = rng.choice([0, 0, 1, 999999, rng.randint(0, 999999)])
         secs = days * 86400 + h * 3600 + mi * 60 + s
         txt = b"%02d:%02d:%02d" % (secs // 3600, mi, s) + (b".%06d" % us if us else b"")
